@@ -121,6 +121,8 @@ func Note(tag string, v ...any) {
 	fmt.Println()
 }
 func HeldLocks() int         { return -1 }
+func Guard(obj any, mu any, name string) {}
+func GuardViolations() int   { return 0 }
 func Symbolic() bool         { return false }
 func Faults() int            { return -1 }
 func Unsupported(why string) {}
